@@ -241,7 +241,8 @@ class Loop:
     """Annotation of one loop: invariant / variant as functions of a namespace `v` holding the current values
     of the function's local variables (v.name) and the entry values of its parameters (v.old_name)."""
 
-    def __init__(self, invariant, variant=None, note="", hint=None, ghost=None, ghost_update=None):
+    def __init__(self, invariant=None, variant=None, note="", hint=None, ghost=None, ghost_update=None, unroll=None):
+        self.unroll = unroll                    # bounded unrolling with an unwinding assertion (complete when it passes)
         self.ghost = ghost or {}                # ghost variable name -> initial value (function of v or constant)
         self.ghost_update = ghost_update        # function(v) -> dict of new ghost values, run at the end of the body
         self.invariant = invariant
@@ -270,3 +271,13 @@ def divides(d, x):
     if d == 0:
         return x == 0
     return x % d == 0
+
+
+def ite(c, a, b):
+    """Non-branching conditional (both alternatives are evaluated)."""
+    return a if c else b
+
+
+def to_int(x):
+    """A bitmap/count as a mathematical integer."""
+    return int(x)
